@@ -50,7 +50,11 @@ func genC19(seed uint64, tier string) *plan.Plan {
 		if r.IntN(5) == 0 {
 			pl.Ops = append(pl.Ops, plan.Op{K: "msg", A: 0, C: int64(r.Uint64() >> 1)})
 		} else {
-			pl.Ops = append(pl.Ops, plan.Op{K: "msg", A: 1, B: int64(r.IntN(6)), C: int64(r.Uint64() >> 1), D: int64(r.IntN(2))})
+			op := plan.Op{K: "msg", A: 1, B: int64(r.IntN(6)), C: int64(r.Uint64() >> 1), D: int64(r.IntN(2))}
+			if op.B > 0 && r.IntN(8) == 0 {
+				op.T = 1 + r.IntN(int(op.B)) // one record of the message cannot be encoded (T-1 = its index)
+			}
+			pl.Ops = append(pl.Ops, op)
 		}
 		if r.IntN(4) == 0 {
 			pl.Ops = append(pl.Ops, plan.Op{K: "stall", A: int64(r.IntN(8)), B: int64(1 + r.IntN(500))})
@@ -91,9 +95,12 @@ type c19Rec struct {
 	srcPod, dstPod, srcNS      string
 	exportTime, seq, dom       uint32
 	exportAddr                 string
+	// poison: the source pod name is not valid UTF-8, so the record has no protobuf encoding; what
+	// (if anything) is published for it is not judged, its neighbours are
+	poison bool
 }
 
-func c19Data(seed int64, nrec int, v6 bool) (*entities.Message, []c19Rec) {
+func c19Data(seed int64, nrec int, v6 bool, poisonAt int) (*entities.Message, []c19Rec) {
 	r := rand.New(rand.NewPCG(uint64(seed), 0x19))
 	A, I := registry.AntreaEnterpriseID, registry.IANAEnterpriseID
 	msg := entities.NewMessage(true)
@@ -122,6 +129,10 @@ func c19Data(seed int64, nrec int, v6 bool) (*entities.Message, []c19Rec) {
 		c := c19Rec{srcPort: uint16(r.Uint32()), dstPort: uint16(r.Uint32()), proto: uint8(r.Uint32()), start: r.Uint32(), end: r.Uint32(),
 			pktTot: r.Uint64(), octTot: r.Uint64(), pktD: uint64(r.IntN(1000)), octD: uint64(r.IntN(100000)),
 			srcPod: str([]int{0, 5, 60, 300}[r.IntN(4)]), dstPod: str(20), srcNS: str(10), exportTime: et, seq: sq, dom: dom, exportAddr: addr}
+		if i == poisonAt {
+			c.srcPod = "\xff\xfe" + c.srcPod
+			c.poison = true
+		}
 		var els []entities.InfoElementWithValue
 		if v6 {
 			s, d := net.ParseIP(fmt.Sprintf("2001:db8::%x", 1+r.IntN(60000))), net.ParseIP(fmt.Sprintf("2001:db8:1::%x", 1+r.IntN(60000)))
@@ -222,7 +233,7 @@ func runC19(pl *plan.Plan, out *plan.Outcome) {
 				m = c19Template(op.C)
 			} else {
 				var recs []c19Rec
-				m, recs = c19Data(op.C, int(op.B), op.D == 1)
+				m, recs = c19Data(op.C, int(op.B), op.D == 1, int(op.T)-1)
 				expected = append(expected, recs...)
 			}
 			Block("feed", func() { msgCh <- m })
@@ -277,8 +288,56 @@ func runC19(pl *plan.Plan, out *plan.Outcome) {
 		return
 	}
 	// ---- oracle ----
-	if len(got) != len(expected) {
-		env.Violate("count", "", "%d data records were handed to the producer, %d Kafka messages were published", len(expected), len(got))
+	// A record that has no protobuf encoding may be dropped or published in some altered form; the
+	// published stream is aligned with the encodable records around it.
+	nPoison := 0
+	for _, e := range expected {
+		if e.poison {
+			nPoison++
+		}
+	}
+	out.Add("fault.record_without_protobuf_encoding", int64(nPoison))
+	if len(got) > len(expected) || len(got) < len(expected)-nPoison {
+		env.Violate("count", "", "%d data records were handed to the producer (%d of them cannot be encoded), %d Kafka messages were published", len(expected), nPoison, len(got))
+	}
+	if nPoison > 0 {
+		isOwn := func(h *held, e c19Rec) bool {
+			p := h.payload
+			if len(p) < 4 {
+				return true
+			}
+			var m proto.Message = &pb.FlowType1{}
+			if schema == 2 {
+				m = &pb.FlowType2{}
+			}
+			if err := proto.Unmarshal(p[4:], m); err != nil {
+				return true
+			}
+			g := m.(interface {
+				GetSrcIP() string
+				GetSrcPort() uint32
+				GetTimeFlowStartInSecs() uint32
+				GetPacketsTotal() uint64
+			})
+			return g.GetSrcIP() == e.srcIP && g.GetSrcPort() == uint32(e.srcPort) && g.GetTimeFlowStartInSecs() == e.start && g.GetPacketsTotal() == e.pktTot
+		}
+		var got2 []*held
+		var exp2 []c19Rec
+		j := 0
+		for _, e := range expected {
+			if e.poison {
+				if j < len(got) && len(got)-j > countEncodable(expected, e) && isOwn(got[j], e) {
+					j++ // something was published for it: not judged
+				}
+				continue
+			}
+			exp2 = append(exp2, e)
+			if j < len(got) {
+				got2 = append(got2, got[j])
+				j++
+			}
+		}
+		got, expected = got2, exp2
 	}
 	// one consumer (and one schema message) for the whole stream, as a real consumer has
 	var consumerMsg proto.Message = &pb.FlowType1{}
@@ -370,4 +429,19 @@ func runC19(pl *plan.Plan, out *plan.Outcome) {
 	out.Add("c19.published", int64(len(got)))
 	out.Nontrivial = len(expected) >= 2
 	out.Sample = map[string]any{"schema": schema, "lazy_encode": lazy, "successes": successes, "messages": len(msgs), "records": len(expected), "published": len(got)}
+}
+
+// countEncodable: how many encodable records follow e in the stream (e is identified by its values).
+func countEncodable(all []c19Rec, e c19Rec) int {
+	n := 0
+	after := false
+	for _, x := range all {
+		if after && !x.poison {
+			n++
+		}
+		if x == e {
+			after = true
+		}
+	}
+	return n
 }
